@@ -14,7 +14,7 @@ def cacheOp (j : Json) : Json :=
     | _ => Op.render (jstrK o "file"))
   let s0 : State Nat Nat := { fs := fun _ => none, cache := fun _ => none }
   let (_, outs) := ops.foldl (fun (acc : State Nat Nat × List Json) op =>
-    match step parse Generated.cacheStatFailureIsMiss acc.1 op with
+    match step parse Generated.cacheStatFailureIsMiss Generated.cacheZeroMtimeIsHit acc.1 op with
     | (s', some (some v)) => (s', acc.2 ++ [N v])
     | (s', some none) => (s', acc.2 ++ [Json.null])
     | (s', none) => (s', acc.2)) (s0, [])
